@@ -157,7 +157,7 @@ def _dump_twice(o):
 def impl(case):
     kind = case["kind"]
     outs = []
-    for order in case["orders"]:
+    for oi, order in enumerate(case["orders"]):
         if kind in ("rpms", "modules", "extra"):
             o = DM._new(kind)
             for k, v in case["compose"].items():
@@ -179,6 +179,15 @@ def impl(case):
         elif kind == "treeinfo":
             try:
                 ti = DT.build_treeinfo(order)
+                if oi % 2:
+                    # the object served as a template before: it was written once for another architecture, then re-targeted
+                    real = ti.tree.arch
+                    ti.tree.arch = "riscv64" if real != "riscv64" else "x86_64"
+                    try:
+                        DT._dumps(ti, None)
+                    except Exception:
+                        pass
+                    ti.tree.arch = real
                 first = DT._dumps(ti, None)
                 tops = sorted(ti.variants.variants)
                 if len(tops) >= 2:
